@@ -90,8 +90,8 @@ def run(chk, prog):
                 for b in cl.reachable:
                     for st in cl.stmts(b):
                         if st["k"] == "assign" and st["lhs"][0] == 0 and st["rv"]["k"] == "agg" and st["rv"].get("variant") == "Some":
-                            tr = cl.trace(op_base(st["rv"]["ops"][0]), through_calls=[r"clone::Clone::clone$"])
-                            tgt_ok = "f:target" in str(tr)
+                            tr = cl.trace(op_base(st["rv"]["ops"][0]), through_calls=[r"clone::Clone::clone$", r"Option::<T>::(map|map_or|map_or_else|and_then|as_ref|as_deref|cloned)$"])
+                            tgt_ok = tgt_ok or "f:target" in str(tr)
             elif ok:
                 maps = [x for x in f.calls if re.search(r"Option::<T>::map$", x.path or "") and op_base(x.args[0]) is not None and
                         any(k == "call" and info is c for k, info in f.trace(op_base(x.args[0])))]
